@@ -166,10 +166,10 @@
       return true;
    }
 
-   bool CheckAll(World & w, std::string & msg, std::string & key) const
+   bool CheckAll(World & w, bool touchesU, std::string & msg, std::string & key) const
    {
       if (!CheckTable(w, T, true, msg, key)) return false;
-      if (!CheckTable(w, U, w.m[U].size() <= 16, msg, key)) return false;
+      if (!CheckTable(w, U, touchesU, msg, key)) return false;   // content, order and first/last of u always; every query only after operations that involve u
       return CheckIters(w, msg, key);
    }
 
